@@ -28,6 +28,40 @@ MATURITY_CD = {"Barley": 93, "BarleyGDD": 130, "Cotton": 174, "CottonGDD": 200, 
                "Tef": 99, "AlfalfaGDD": 200, "Cassava": 360}
 
 
+def reach_m(dz):
+    """deepest profile the deepening loop of read_model_parameters can produce from the thickness list dz (metres)"""
+    tot = 0.0
+    for d in dz:
+        d = round(float(d), 2)
+        while d < 0.25:
+            d = round(d + 0.1, 2)
+        tot += d
+    return round(tot, 2)
+
+
+def zmax_of(crop, kw=None):
+    if kw and "Zmax" in kw:
+        return float(kw["Zmax"])
+    try:
+        from aquacrop.entities.crops.crop_params import crop_params
+        return float(crop_params.get(crop, {}).get("Zmax", 1.0) or 1.0)
+    except Exception:
+        return 1.0
+
+
+def deepenable(sc):
+    """False when the configuration runs into the known non-terminating deepening loop (known finding KF-deepening-hang)"""
+    soil = sc.get("soil") or {}
+    dz = (soil.get("kw") or {}).get("dz")
+    if soil.get("type") == "ac_TunisLocal":
+        dz = [0.1] * 6 + [0.15] * 5 + [0.2]
+    if not dz:
+        dz = [0.1] * 12
+    z = zmax_of(sc["crop"]["name"], sc["crop"].get("kw"))
+    need = z + 0.1
+    return round(sum(dz), 2) >= need or reach_m(dz) > need + 1e-9
+
+
 def dstr(d):
     return f"{d.year}/{d.month:02d}/{d.day:02d}"
 
@@ -200,6 +234,8 @@ def diverse(rnd, n, crops=None, soils=None, focus=None):
             events = drought_events(year, plant_md)
         sc = scenario(crop=crop, seed=rnd.randrange(10 ** 6), plant_md=plant_md, year=year, seasons=seasons, lead=lead,
                       irr=irr, field=field, fallow=fallow, gw=gw, iwc=iwc, off_season=off, events=events, soil_spec=soil_spec)
+        if not deepenable(sc):
+            sc["soil"] = {"type": rnd.choice(soils)}
         out.append(sc)
     return out
 
